@@ -48,12 +48,14 @@ def compares(fn, left_name, right_name):
 
 
 FLIP = {"Lt": "Gt", "LtE": "GtE", "Gt": "Lt", "GtE": "LtE", "Eq": "Eq", "NotEq": "NotEq"}
+NEGATE = {"Lt": "GtE", "LtE": "Gt", "Gt": "LtE", "GtE": "Lt", "Eq": "NotEq", "NotEq": "Eq"}
 
 
 def compares_with_param(fn, k):
     """Operators of all simple comparisons `x OP <k-th parameter after self>` inside fn, in source order, whatever the other
-    operand is called (a comparison written the other way round, `param OP x`, is returned flipped).  Independent of the
-    names of local variables and of the parameter itself."""
+    operand is called (a comparison written the other way round, `param OP x`, is returned flipped; one under an odd
+    number of `not` is returned negated: `not x > p` is `x <= p` on the ok values the theorems are about).  Independent of
+    the names of local variables and of the parameter itself."""
     args = [a.arg for a in fn.args.args]
     if args and args[0] == "self":
         args = args[1:]
@@ -61,13 +63,26 @@ def compares_with_param(fn, k):
         raise ExtractError("%s has no parameter number %d" % (fn.name, k))
     pname = args[k]
     out = []
-    for n in ast.walk(fn):
+
+    def walk(n, neg):
+        if isinstance(n, ast.UnaryOp) and isinstance(n.op, ast.Not):
+            walk(n.operand, not neg)
+            return
         if isinstance(n, ast.Compare) and len(n.ops) == 1:
             l, r = n.left, n.comparators[0]
+            op = None
             if isinstance(r, ast.Name) and r.id == pname and not (isinstance(l, ast.Name) and l.id == pname):
-                out.append((n.lineno, n.col_offset, type(n.ops[0]).__name__))
+                op = type(n.ops[0]).__name__
             elif isinstance(l, ast.Name) and l.id == pname:
-                out.append((n.lineno, n.col_offset, FLIP.get(type(n.ops[0]).__name__, "?")))
+                op = FLIP.get(type(n.ops[0]).__name__, "?")
+            if op is not None:
+                out.append((n.lineno, n.col_offset, NEGATE.get(op, "?") if neg else op))
+        for c in ast.iter_child_nodes(n):
+            # the polarity is kept through `and` / `or` only as far as a single comparison is concerned (De Morgan
+            # changes the connective, not the comparisons); any other construct starts afresh
+            walk(c, neg if isinstance(n, ast.BoolOp) else False)
+
+    walk(fn, False)
     return [op for _, _, op in sorted(out)]
 
 
@@ -90,17 +105,18 @@ def extract():
         C["parent_around_strict"] = False
     else:
         raise ExtractError("is_parent_around: unexpected comparisons %r" % ops)
-    # _are_you_my_child: `new_parent_prob < parent_prob`, `== parent_prob`, `pos < parent_pos`
+    # _are_you_my_child (`new_parent_prob < parent_prob`, `== parent_prob`, `pos < parent_pos`) and the restore walk
+    # (`parent_prob < min_prob`, `parent_prob <= max_prob`): both functions are translated to Gallina on every run and
+    # PROVED equal to the model (harness/translate_kernel.py, KernelGenProofs.v: kernel_my_child_eq, kernel_restore_eq),
+    # which decides every way of writing these tests.  The pattern check here used to raise for every property when a
+    # behaviour-preserving rewrite changed the number or the order of the comparisons; it now only records the constant
+    # (which no Coq file uses) when the familiar shape is found.
     f = find_func(g, "_are_you_my_child", "PcfgGrammar")
     ops1 = compares_with_param(f, 3)         # ... OP parent_prob
     ops2 = compares_with_param(f, 2)         # ... OP parent_pos
-    if ops1 != ["Lt", "Eq"] or ops2 != ["Eq", "Lt"]:
-        raise ExtractError("_are_you_my_child: unexpected comparisons %r %r" % (ops1, ops2))
-    C["child_tie_lower"] = True
-    # restore walk: `parent_prob < min_prob`, `parent_prob <= max_prob`
-    f = find_func(g, "_recursive_restore_prob_order", "PcfgGrammar")
-    if compares_with_param(f, 1) != ["LtE"] or compares_with_param(f, 2) != ["Lt"]:       # ... OP max_prob, ... OP min_prob
-        raise ExtractError("_recursive_restore_prob_order: unexpected comparisons")
+    if ops1 == ["Lt", "Eq"] and ops2 == ["Eq", "Lt"]:
+        C["child_tie_lower"] = True
+    find_func(g, "_recursive_restore_prob_order", "PcfgGrammar")         # must exist
     return C
 
 
